@@ -4,6 +4,7 @@
 # unedited suite passes, (2) its demonstration fails with it and passes without,
 # then runs the named /verif checks against that worktree (VERIF_REPO).
 set -u
+ROOT=${VERIF_DIR:-/verif}
 M=$1; shift
 export GOFLAGS=-mod=mod GOPROXY=off GOSUMDB=off GOTOOLCHAIN=local
 unset CI UPDATE_SNAPS
@@ -25,7 +26,7 @@ copydemo
 ( cd $WT && git clean -fdq )
 echo "suite_exit=$s demo_clean_exit=$c0 demo_mutant_exit=$c1"
 for c in "$@"; do
-  out=$(cd /verif && VERIF_REPO=$WT VERIF_WORLDS=${MUT_WORLDS:-} ./bin/simdrive check $c ${TIER:-quick} 2>&1)
+  out=$(cd $ROOT && VERIF_REPO=$WT VERIF_WORLDS=${MUT_WORLDS:-} ./bin/simdrive check $c ${TIER:-quick} 2>&1)
   rc=$?
   echo "check $c exit=$rc: $(echo "$out" | grep -c '^VIOLATION') violation lines"
   echo "$out" | grep -A2 '^VIOLATION\|^INFRA' | cut -c1-300 | head -12
